@@ -36,6 +36,7 @@ func (e *Engine) initialState() *State {
 func (e *Engine) VerifyFunc(fn *ssa.Function, blk *Block, props []string) (err error) {
 	e.curFunc = FuncKey(fn)
 	e.curProps = props
+	e.freshRefs = map[*Term]bool{}
 	if blk != nil && len(blk.Props) > 0 && props == nil {
 		e.curProps = blk.Props
 	}
@@ -295,9 +296,6 @@ func (x *exec) frameGoal(key string, st *State) *Term {
 		switch {
 		case tg.row:
 			rowT = append(rowT, tg)
-		case tg.arr != nil:
-			idx := c.App("elemIdx", Int, rv)
-			allowed = append(allowed, c.And(c.Eq(c.App("elemArr", Int, rv), tg.arr), c.Eq(c.App("elem", Int, tg.arr, idx), rv), c.Le(tg.off, idx), c.Lt(idx, c.Add(tg.off, tg.ln))))
 		case tg.ref != nil:
 			allowed = append(allowed, c.Eq(rv, tg.ref))
 		default:
@@ -323,13 +321,63 @@ func isFieldKey(key string) bool {
 	return strings.Contains(key, ".") && !strings.HasPrefix(key, "A:") && !strings.HasPrefix(key, "box:") && !strings.HasPrefix(key, "map:") && !strings.HasPrefix(key, "ghost:") && !strings.HasPrefix(key, "global:")
 }
 
-// checkFrame: everything outside "modifies" is unchanged at return.
-func (x *exec) checkFrame(blk *Block, r retRec, site string) {
-	for _, key := range sortedKeys(r.st.heap) {
-		if g := x.frameGoal(key, r.st); g != nil {
-			x.oblige("frame", shortHeapKey(key)+"@"+site, r.pos, r.st, g, "only locations listed in modifies change ("+key+")")
+// checkFrame: nothing to do at return sites -- every write was checked
+// against the contract's modifies clauses where it happened (noteWrite).
+func (x *exec) checkFrame(blk *Block, r retRec, site string) {}
+
+// noteWrite raises the frame obligation of one write: the location is listed
+// in the modifies clauses of the function under verification, or belongs to an
+// object allocated since its entry.
+func (x *exec) noteWrite(s *State, key string, w wtarget) {
+	e := x.e
+	c := e.C
+	t := x.topExec()
+	if t.contract == nil || strings.HasPrefix(key, "chan#") {
+		return
+	}
+	fi := x.frameTargetsAll()
+	if fi.all {
+		return
+	}
+	if (w.kind == wRef && e.isFreshTerm(w.ref)) || (w.kind == wRow && e.isFreshTerm(w.arr)) {
+		return
+	}
+	next0 := t.entry.next
+	var allowed []*Term
+	switch w.kind {
+	case wRef:
+		allowed = append(allowed, c.Le(next0, e.rootOf(w.ref)))
+	case wRow:
+		allowed = append(allowed, c.Le(next0, e.rootOf(w.arr)), c.Le(w.n, c.IntC(0)))
+	}
+	for _, tg := range fi.targets {
+		if tg.keyPrefix != "" {
+			if key == tg.keyPrefix || strings.HasPrefix(key, tg.keyPrefix+"#") {
+				return
+			}
+			continue
+		}
+		if tg.key != key && !(strings.HasPrefix(key, "map:") && strings.HasPrefix(tg.key, key)) {
+			continue
+		}
+		switch {
+		case tg.row:
+			if w.kind == wRow {
+				allowed = append(allowed, c.And(c.Eq(w.arr, tg.ref), c.Le(tg.off, w.lo), c.Le(c.Add(w.lo, w.n), c.Add(tg.off, tg.ln))))
+			}
+		case tg.ref != nil:
+			if w.kind == wRef {
+				allowed = append(allowed, c.Eq(w.ref, tg.ref))
+			}
+		default:
+			return
 		}
 	}
+	goal := c.Or(allowed...)
+	if goal.IsTrue() {
+		return
+	}
+	x.oblige("frame", shortHeapKey(key), x.pos, s, goal, "write to a location not listed in modifies ("+key+")")
 }
 
 func shortHeapKey(k string) string {
@@ -381,8 +429,17 @@ func (x *exec) frameTargets(env *specEnv, be *boundExpr, wild bool, cl *Clause) 
 					out = append(out, frameTarget{key: boxKey(p.T) + l.comp, ref: p.Ref})
 				}
 			case PElem:
+				if structOf(p.T) != nil {
+					addPtr(e.elemObj(p.Arr, p.Idx, p.T))
+					return
+				}
 				for _, l := range e.leavesOf(p.T) {
-					out = append(out, frameTarget{key: elemKey(p.T) + l.comp, ref: p.Arr, off: p.Idx, ln: c.IntC(1), row: true})
+					out = append(out, frameTarget{key: p.elemKeyOf() + l.comp, ref: p.Arr, off: p.Idx, ln: c.IntC(1), row: true})
+				}
+			case PElemObj:
+				st := structOf(p.T)
+				for i := 0; i < st.NumFields(); i++ {
+					addPtr(e.fieldAddr(p, i))
 				}
 			}
 		}
@@ -400,14 +457,14 @@ func (x *exec) frameTargets(env *specEnv, be *boundExpr, wild bool, cl *Clause) 
 		}
 		return out
 	}
-	st := structOf(el)
-	for i := 0; i < st.NumFields(); i++ {
-		if len(fields) > 0 && fields[0] != i {
-			continue
+	for _, lp := range e.structLeaves(el) {
+		if len(fields) > 0 {
+			pre := "E:" + typeKey(el) + "." + structOf(el).Field(fields[0]).Name()
+			if lp.key != pre && !strings.HasPrefix(lp.key, pre+"#") && !strings.HasPrefix(lp.key, pre+".") {
+				continue
+			}
 		}
-		for _, l := range e.leavesOf(st.Field(i).Type()) {
-			out = append(out, frameTarget{key: fieldKey(el, i) + l.comp, arr: base.Arr, off: base.Off, ln: base.Len})
-		}
+		out = append(out, frameTarget{key: lp.key, ref: base.Arr, off: base.Off, ln: base.Len, row: true})
 	}
 	return out
 }
